@@ -40,18 +40,22 @@ var unitTrusted = []string{"go/ssa", "the seed table of checker/units.go (fields
 
 func init() {
 	register("C05", &propInfo{
-		Explanation: "UNIT: units/kinds dataflow over the transform code (transform.go, matrix.go, metaball.go, squeeze.go, render3d/transform.go; 2D and 3D): directions, normals and ray parameters are not pushed through point/length maps (Transform.Apply on a vector without the image-difference idiom; DistTransform.ApplyDistance on anything but a length); sums, comparisons, distances and stores into seeded fields are dimensionally consistent; all returns of a function agree on their dimension. FRAME: in every transformed wrapper (methods of structs holding a Transform, closures capturing one) world-frame query values reach the wrapped object only through the inverse transform and forward maps are applied only to object-frame values.",
+		Explanation: "UNIT: units/kinds dataflow over the transform code (transform.go, matrix.go, metaball.go, squeeze.go, render3d/transform.go; 2D and 3D): directions, normals and ray parameters are not pushed through point/length maps (Transform.Apply on a vector without the image-difference idiom; DistTransform.ApplyDistance on anything but a length); sums, comparisons, distances and stores into seeded fields are dimensionally consistent; all returns of a function agree on their dimension. ABSORB: no transformed bound is computed as x.Max(y.Min(x)). FRAME: in every transformed wrapper (methods of structs holding a Transform, closures capturing one) world-frame query values reach the wrapped object only through the inverse transform and forward maps are applied only to object-frame values.",
 		Trusted:     unitTrusted,
 		Assumptions: []string{"model coordinates are lengths; a Transform value obtained from X.Inverse() is the inverse of X"},
-		Fixtures:    []string{"u"},
+		Fixtures:    []string{"u", "g"},
 		Run: func(c *Ctx) {
 			pkgs := c.unitPkgs("u")
 			c.runUnits("UNIT", pkgs, c.fileFilter("transform.go", "matrix.go", "metaball.go", "squeeze.go"))
 			c.floor("UNIT", 10)
 			c.runFrames("FRAME", pkgs)
 			c.floor("FRAME", 30)
+			c.runAbsorption("ABSORB", append(c.libPkgs()[:3:3], c.fixturePkg("g")), c.fileFilter("transform.go", "matrix.go", "squeeze.go"))
+			c.floor("ABSORB", 10)
 		},
 		SelfTest: []Mutation{
+			{Name: "mirrored scale collapses its bounds", File: "model2d/transform.go",
+				Old: "\treturn min.Min(max), max.Max(min)", New: "\tmin = min.Min(max)\n\tmax = max.Max(min)\n\treturn min, max", Rule: "ABSORB", Expect: "ApplyBounds"},
 			{Name: "direction pushed through the point map (defect F4)", File: "model3d/transform.go",
 				Old: "Direction: t.inv.Apply(r.Origin.Add(r.Direction)).Sub(origin),", New: "Direction: t.inv.Apply(r.Direction),", Rule: "UNIT", Expect: "innerRay"},
 			{Name: "ray parameter scaled like a length (defect F4)", File: "model2d/transform.go",
